@@ -24,7 +24,11 @@ func (c08) Gen(tier string, seed int64, emit0 func([]Ev)) {
 	}
 	for i := 0; i < n; i++ {
 		s := rndSig(r)
-		switch i % 25 {
+		sel := i % 25
+		if sel == 19 && tier == "thorough" && i%500 != 19 {
+			sel = 0 // long sections are expensive to validate: 300 of them in the thorough tier
+		}
+		switch sel {
 		case 19:
 			// sections longer than 1023 bytes (section_length is a 12-bit field, up to 4093):
 			// several descriptors with long UPIDs, or a component splice with many components
